@@ -2,7 +2,7 @@ SPECIFICATION Spec
 CONSTANTS
   Depth = 2
   EmitB = TRUE
-  NStart = 15
+  NStart = 16
   OpFrom = 1
   OpTo = 68
 INVARIANTS ObjectsOk RelativeOk StaysValid EmitBehaviour
